@@ -346,6 +346,19 @@ Section IdealProofs.
     subst. rewrite O in O'. injection O' as A B. auto.
   Qed.
 
+  (** remark (by design, btcec masks the "compressed key" bit of the recovery byte): the outcome
+      of [VerifySignature] depends on the 65-byte string only through r, s and byte 64 with bit 2
+      cleared, so recovery bytes 4/5 are aliases of 0/1 for the same message and signer; by
+      [verify_signature_functional] no alias verifies for any other (address, hash). *)
+  Lemma verify_signature_alias addr h sig sig' :
+    len sig = len sig' -> firstn 32 sig = firstn 32 sig' ->
+    firstn 32 (skipn 32 sig) = firstn 32 (skipn 32 sig') ->
+    N.land (nth 64 sig 0) 251 = N.land (nth 64 sig' 0) 251 ->
+    verify_signature oracle addr h sig = verify_signature oracle addr h sig'.
+  Proof.
+    intros L R S V. unfold verify_signature, sig_to_addr. rewrite L, R, S, V. reflexivity.
+  Qed.
+
   Lemma vote_verify_ok chain addr vaddr v sig : vote_verify oracle H chain addr vaddr v sig = VOk ->
     vaddr = addr /\ exists b, vote_sign_bytes chain v = Some b /\ verify_signature oracle addr (H b) sig = true.
   Proof.
